@@ -45,17 +45,20 @@ Ltac head2 :=
 Ltac split_ps H ps := destruct ps as [|?v1 [|?v2 [|?v3 [|?v4 [|?v5 [|?v6 ?rest]]]]]]; try discriminate H.
 Ltac red_b := cbn [call_builtin leqb A map Z.to_N Pos.to_nat N.eqb Pos.eqb andb orb].
 Ltac red_t := cbn [call_time leqb A map Z.to_N Pos.to_nat N.eqb Pos.eqb andb orb].
-Definition max_name := A [109;97;120]%Z. Definition min_name := A [109;105;110]%Z.
+Definition max_name := A [109;97;120]%Z. Definition min_name := A [109;105;110]%Z. Definition if_then_name := A [105;102;95;116;104;101;110]%Z.
 Lemma vmax_some l : l <> [] -> vmax l <> None. Proof. destruct l; [congruence|discriminate]. Qed.
 Lemma vmin_some l : l <> [] -> vmin l <> None. Proof. destruct l; [congruence|discriminate]. Qed.
 
 Theorem builtin_no_count_error_within_arity : forall off name a p ps k, In (name, a, p) gen_builtins -> garity_ok a (length ps) = true ->
   ((name = max_name \/ name = min_name) -> smart_vec ps <> []) ->
+  (name = if_then_name -> match ps with VBool _ :: _ => True | _ => False end) ->
   call_builtin off name ps <> BErr (WrongParameterCount k).
 Proof.
-  intros off name a p ps k HIn H Hmm. unfold gen_builtins in HIn.
+  intros off name a p ps k HIn H Hmm Hif. unfold gen_builtins in HIn.
   repeat (destruct HIn as [E|HIn]; [injection E as <- <- <-; first
-    [ (* max / min *) (assert (Hs : smart_vec ps <> []) by (apply Hmm; (left; reflexivity) || (right; reflexivity))); red_b;
+    [ (* if_then: the condition is a Boolean (its documented kind); with another kind and three arguments the function answers with a count error *)
+      (pose proof (Hif eq_refl) as Hi; split_ps H ps; cbn in Hi; try contradiction; match type of Hi with match ?v with _ => _ end => destruct v; try contradiction end; red_b; head2)
+    | (* max / min *) (assert (Hs : smart_vec ps <> []) by (apply Hmm; (left; reflexivity) || (right; reflexivity))); red_b;
       first [ pose proof (vmax_some _ Hs); destruct (vmax (smart_vec ps)); [discriminate|congruence] | pose proof (vmin_some _ Hs); destruct (vmin (smart_vec ps)); [discriminate|congruence] ]
     | split_ps H ps; red_b; head2
     | red_b; head2 ] | ]).
